@@ -5,8 +5,9 @@
 // watched directory /data) up to a depth over a path universe with adversarial
 // siblings (/data2, /dat).  Every history is fed, event by event and encoded
 // exactly as Filer.NotifyUpdateEvent encodes it, to
-//   * replication.Replicator.Replicate           (filer.replicate)
-//   * command.genProcessFunction                  (filer.sync, filer.backup)
+//   - replication.Replicator.Replicate           (filer.replicate)
+//   - command.genProcessFunction                  (filer.sync, filer.backup)
+//
 // each with a reference sink that records the calls and interprets them on a
 // tree, and with the real LocalSink writing into a scratch directory.  Oracle:
 // after every event the sink's tree equals the image of the source subtree
@@ -36,7 +37,7 @@ import (
 
 func Main() {
 	mc.Main("C36", "exploration",
-		"all histories of <=d change events (create, update, delete, rename to any absent path; optionally flagged as coming from the other cluster) over files {/data/x,/data/s/x,/data2/x,/dat/x,/other/x}, source directory /data, target directory /backup; seams {Replicator.Replicate, genProcessFunction} x sinks {reference recording sink named 'filer', same named 'other', real LocalSink}, plus filer.sync end to end (doSubscribeFilerMetaChanges + FilerSink + real target filer over gRPC, scripted source); oracle after every event: sink tree = mapped source subtree, no call for outside / other-cluster events; distinct = (seam, sink, event kind, path classes, outcome)",
+		"all histories of <=d change events (create, update, delete, rename to any absent path; optionally flagged as coming from the other cluster) over files {/data/x,/data/s/x,/data2/x,/dat/x,/other/x} plus histories with explicit directories (mkdir, recursive delete, file where a directory was), source directory /data, target directory /backup; seams {Replicator.Replicate, genProcessFunction} x sinks {reference recording sink named 'filer', same named 'other', real LocalSink}, plus filer.sync end to end (doSubscribeFilerMetaChanges + FilerSink + real target filer over gRPC, scripted source); oracle after every event: sink tree = mapped source subtree, no call for outside / other-cluster events; distinct = (seam, sink, event kind, path classes, outcome)",
 		run)
 }
 
@@ -54,6 +55,7 @@ type event struct {
 	Path  string `json:"path"`
 	To    string `json:"to,omitempty"`
 	Other bool   `json:"other,omitempty"` // the change was applied on this filer by a replicator from the target cluster
+	Dir   bool   `json:"dir,omitempty"`   // the entry is a directory (create = mkdir, delete = removal of the emptied directory)
 }
 
 type caseT struct {
@@ -99,6 +101,15 @@ func pbEntry(path string, version int) *filer_pb.Entry {
 	}
 }
 
+func pbEntryOf(e event, path string, version int) *filer_pb.Entry {
+	en := pbEntry(path, version)
+	if e.Dir {
+		en.IsDirectory = true
+		en.Attributes.FileMode = uint32(os.ModeDir | 0755)
+	}
+	return en
+}
+
 // encode builds the notification exactly as Filer.NotifyUpdateEvent / logMetaEvent do.
 func encode(e event, version int) (key string, msg *filer_pb.EventNotification, resp *filer_pb.SubscribeMetadataResponse) {
 	msg = &filer_pb.EventNotification{Signatures: []int32{sourceSignature}}
@@ -109,7 +120,7 @@ func encode(e event, version int) (key string, msg *filer_pb.EventNotification, 
 	switch e.Kind {
 	case "create":
 		key = e.Path
-		msg.NewEntry = pbEntry(e.Path, version)
+		msg.NewEntry = pbEntryOf(e, e.Path, version)
 		msg.NewParentPath = filepath.Dir(e.Path)
 	case "update":
 		key = e.Path
@@ -118,7 +129,7 @@ func encode(e event, version int) (key string, msg *filer_pb.EventNotification, 
 		msg.NewParentPath = filepath.Dir(e.Path)
 	case "delete":
 		key = e.Path
-		msg.OldEntry = pbEntry(e.Path, version)
+		msg.OldEntry = pbEntryOf(e, e.Path, version)
 		msg.DeleteChunks = true
 	case "rename":
 		key = e.Path
@@ -157,11 +168,11 @@ type refSink struct {
 	calls []call
 }
 
-func (s *refSink) GetName() string                                     { return s.name }
+func (s *refSink) GetName() string                                      { return s.name }
 func (s *refSink) Initialize(c util.Configuration, prefix string) error { return nil }
-func (s *refSink) GetSinkToDirectory() string                          { return dstDir }
-func (s *refSink) SetSourceFiler(*source.FilerSource)                  {}
-func (s *refSink) IsIncremental() bool                                 { return false }
+func (s *refSink) GetSinkToDirectory() string                           { return dstDir }
+func (s *refSink) SetSourceFiler(*source.FilerSource)                   {}
+func (s *refSink) IsIncremental() bool                                  { return false }
 func (s *refSink) DeleteEntry(key string, isDirectory, deleteIncludeChunks bool, signatures []int32) error {
 	s.calls = append(s.calls, call{Op: "delete", Key: key, Signatures: signatures})
 	delete(s.tree, key)
@@ -169,16 +180,16 @@ func (s *refSink) DeleteEntry(key string, isDirectory, deleteIncludeChunks bool,
 }
 func (s *refSink) CreateEntry(key string, entry *filer_pb.Entry, signatures []int32) error {
 	s.calls = append(s.calls, call{Op: "create", Key: key, Signatures: signatures})
-	s.tree[key] = true
+	s.tree[key] = entry.IsDirectory
 	return nil
 }
 func (s *refSink) UpdateEntry(key string, oldEntry *filer_pb.Entry, newParentPath string, newEntry *filer_pb.Entry, deleteIncludeChunks bool, signatures []int32) (bool, error) {
 	s.calls = append(s.calls, call{Op: "update", Key: key, NewParentPath: newParentPath, NewName: newEntry.Name, Signatures: signatures})
-	if !s.tree[key] {
+	if _, ok := s.tree[key]; !ok {
 		return false, nil
 	}
 	delete(s.tree, key)
-	s.tree[string(util.NewFullPath(newParentPath, newEntry.Name))] = true
+	s.tree[string(util.NewFullPath(newParentPath, newEntry.Name))] = newEntry.IsDirectory
 	return true, nil
 }
 
@@ -237,40 +248,54 @@ func newSut(seam, sinkKind, scratch string) *sut {
 	return s
 }
 
-// tree returns the sink's files as paths relative to the target directory.
-func (s *sut) tree() []string {
-	var out []string
+// tree returns the sink's files and directories (absolute paths for the reference sink,
+// scratch-root-relative ones for the local sink: both start with dstDir when all is well).
+func (s *sut) tree() (files, dirs []string) {
 	if s.ref != nil {
-		for p := range s.ref.tree {
-			out = append(out, p) // absolute: anything outside dstDir must show
+		for p, isDir := range s.ref.tree {
+			if isDir {
+				dirs = append(dirs, p)
+			} else {
+				files = append(files, p) // absolute: anything outside dstDir must show
+			}
 		}
 	} else {
 		filepath.Walk(s.localRoot, func(p string, info os.FileInfo, err error) error {
-			if err == nil && !info.IsDir() {
-				out = append(out, p[len(s.localRoot):])
+			if err != nil {
+				return nil
+			}
+			rel := p[len(s.localRoot):]
+			if !info.IsDir() {
+				files = append(files, rel)
+			} else if rel != "" && rel != dstDir {
+				dirs = append(dirs, rel)
 			}
 			return nil
 		})
 	}
-	sort.Strings(out)
-	return out
+	sort.Strings(files)
+	sort.Strings(dirs)
+	return
 }
 
-// seed puts a file into the sink without an event (the target already has it).
-func (s *sut) seed(p string, present bool) {
+// seed puts an entry into the sink without an event (the target already has it).
+func (s *sut) seed(p string, present, isDir bool) {
 	if s.ref != nil {
 		if present {
-			s.ref.tree[p] = true
+			s.ref.tree[p] = isDir
 		} else {
 			delete(s.ref.tree, p)
 		}
 		return
 	}
 	fp := s.localRoot + p
-	if present {
+	switch {
+	case present && isDir:
+		os.MkdirAll(fp, 0755)
+	case present:
 		os.MkdirAll(filepath.Dir(fp), 0755)
 		os.WriteFile(fp, nil, 0644)
-	} else {
+	default:
 		os.Remove(fp)
 	}
 }
@@ -301,6 +326,9 @@ func (s *sut) feed(e event, version int) (err error, pn interface{}, calls []cal
 type verdict struct{ class, msg string }
 
 func eventKind(e event) string {
+	if e.Dir {
+		return e.Kind + "-directory"
+	}
 	if e.Kind != "rename" {
 		return e.Kind
 	}
@@ -325,37 +353,20 @@ func skipExpected(seam, sinkKind string, e event) bool {
 // is not fed after a failure: the trees have diverged).
 func runHistory(seam, sinkKind string, events []event, scratch string) (classes []string, v *verdict) {
 	s := newSut(seam, sinkKind, scratch)
-	model := map[string]int{} // source tree: path -> version
-	want := map[string]bool{} // reference target tree (absolute paths under dstDir)
+	model := map[string]int{} // source tree: path -> version (files), -1 (directories)
 	version := 0
 	for i, e := range events {
 		version++
-		// the source filer applies the change
-		switch e.Kind {
-		case "create", "update":
-			model[e.Path] = version
-		case "delete":
-			delete(model, e.Path)
-		case "rename":
-			delete(model, e.Path)
-			model[e.To] = version
-		}
-		for k := range want {
-			delete(want, k)
-		}
-		for p := range model {
-			if inside(p) {
-				want[mapped(p)] = true
-			}
-		}
+		applyModel(model, e, version) // the source filer applies the change
+		wantFiles, wantDirs := wantedTree(model, mapped)
 		skip := skipExpected(seam, sinkKind, e)
 		if skip {
 			// the change originated on the target side: the target already has it
 			if inside(e.Path) {
-				s.seed(mapped(e.Path), e.Kind == "create" || e.Kind == "update")
+				s.seed(mapped(e.Path), e.Kind == "create" || e.Kind == "update", e.Dir)
 			}
 			if e.Kind == "rename" && inside(e.To) {
-				s.seed(mapped(e.To), true)
+				s.seed(mapped(e.To), true, false)
 			}
 		}
 		err, pn, calls := s.feed(e, version)
@@ -386,22 +397,72 @@ func runHistory(seam, sinkKind string, events []event, scratch string) (classes 
 				}
 			}
 		}
-		var wantList []string
-		for p := range want {
-			if s.ref != nil {
-				wantList = append(wantList, p)
-			} else {
-				wantList = append(wantList, p) // localRoot-relative paths start with dstDir as well
-			}
+		gotFiles, gotDirs := s.tree()
+		if strings.Join(gotFiles, " ") != strings.Join(wantFiles, " ") {
+			return fail("tree-differs", fmt.Sprintf("sink files %v, want %v (calls %v)", gotFiles, wantFiles, calls))
 		}
-		sort.Strings(wantList)
-		got := s.tree()
-		if strings.Join(got, " ") != strings.Join(wantList, " ") {
-			return fail("tree-differs", fmt.Sprintf("sink tree %v, want %v (calls %v)", got, wantList, calls))
+		// directories: the sink may lack a directory the source has (sinks create them lazily), but it
+		// must not keep one the source does not have
+		for _, d := range gotDirs {
+			if !wantDirs[d] {
+				return fail("sink-keeps-directory-missing-in-source", fmt.Sprintf("sink has directory %s; source directories map to %v (calls %v)", d, keys(wantDirs), calls))
+			}
 		}
 		classes = append(classes, feat+"|ok")
 	}
 	return classes, nil
+}
+
+// applyModel applies an event to the source tree model.  Creating or moving an entry makes its
+// ancestor directories exist (the filer creates them).
+func applyModel(model map[string]int, e event, version int) {
+	put := func(p string, v int) {
+		model[p] = v
+		for d := filepath.Dir(p); d != "/" && d != "."; d = filepath.Dir(d) {
+			if _, ok := model[d]; !ok {
+				model[d] = -1
+			}
+		}
+	}
+	switch e.Kind {
+	case "create", "update":
+		if e.Dir {
+			put(e.Path, -1)
+		} else {
+			put(e.Path, version)
+		}
+	case "delete":
+		delete(model, e.Path)
+	case "rename":
+		delete(model, e.Path)
+		put(e.To, version)
+	}
+}
+
+// wantedTree: the files the sink must have (exactly) and the directories it may have.
+func wantedTree(model map[string]int, mp func(string) string) (files []string, dirs map[string]bool) {
+	dirs = map[string]bool{}
+	for p, v := range model {
+		if !inside(p) {
+			continue
+		}
+		if v > 0 {
+			files = append(files, mp(p))
+		} else {
+			dirs[mp(p)] = true
+		}
+	}
+	sort.Strings(files)
+	return
+}
+
+func keys(m map[string]bool) []string {
+	var out []string
+	for k := range m {
+		out = append(out, k)
+	}
+	sort.Strings(out)
+	return out
 }
 
 func encodeSigs(e event) []int32 {
@@ -462,6 +523,9 @@ func historyString(events []event) string {
 	var parts []string
 	for _, e := range events {
 		s := e.Kind + " " + e.Path
+		if e.Dir {
+			s = e.Kind + " directory " + e.Path
+		}
 		if e.Kind == "rename" {
 			s += " -> " + e.To
 		}
@@ -532,6 +596,89 @@ func histories(depth int, withOther bool, f func([]event)) {
 	rec(map[string]bool{}, nil)
 }
 
+// hist is a history with the index at which its last user action starts (everything before is a
+// history of its own and is judged there).
+type hist struct {
+	events    []event
+	lastStart int
+}
+
+var (
+	dirUniverse     = []string{"/data/s", "/data/x"}
+	dirFileUniverse = []string{"/data/s/x", "/data/x/f", "/data/x"}
+)
+
+// dirHistories enumerates user actions on a tree with explicit directories: mkdir, create file (the
+// filer first emits the creation of a missing parent directory), delete file, recursive delete of a
+// directory (the filer emits the deletion of the children first, then of the directory itself with
+// IsDirectory set).  /data/x can be a directory (with the file /data/x/f) or a file.
+func dirHistories(depth int, f func(h hist)) {
+	type state map[string]byte // 'f' file, 'd' directory
+	var rec func(st state, prefix []event, lastStart, n int)
+	rec = func(st state, prefix []event, lastStart, n int) {
+		if n > 0 {
+			f(hist{append([]event(nil), prefix...), lastStart})
+		}
+		if n == depth {
+			return
+		}
+		clone := func() state {
+			c := state{}
+			for k, v := range st {
+				c[k] = v
+			}
+			return c
+		}
+		next := func(st2 state, evs ...event) {
+			rec(st2, append(append([]event(nil), prefix...), evs...), len(prefix), n+1)
+		}
+		for _, d := range dirUniverse {
+			if st[d] == 0 {
+				c := clone()
+				c[d] = 'd'
+				next(c, event{Kind: "create", Path: d, Dir: true})
+			}
+		}
+		for _, p := range dirFileUniverse {
+			parent := filepath.Dir(p)
+			if st[p] != 0 || st[parent] == 'f' {
+				continue
+			}
+			c := clone()
+			var evs []event
+			if c[parent] == 0 {
+				c[parent] = 'd'
+				evs = append(evs, event{Kind: "create", Path: parent, Dir: true})
+			}
+			c[p] = 'f'
+			next(c, append(evs, event{Kind: "create", Path: p})...)
+		}
+		for _, p := range dirFileUniverse {
+			if st[p] == 'f' {
+				c := clone()
+				delete(c, p)
+				next(c, event{Kind: "delete", Path: p})
+			}
+		}
+		for _, d := range dirUniverse {
+			if st[d] != 'd' {
+				continue
+			}
+			c := clone()
+			var evs []event
+			for _, p := range dirFileUniverse {
+				if filepath.Dir(p) == d && st[p] == 'f' {
+					delete(c, p)
+					evs = append(evs, event{Kind: "delete", Path: p})
+				}
+			}
+			delete(c, d)
+			next(c, append(evs, event{Kind: "delete", Path: d, Dir: true})...)
+		}
+	}
+	rec(state{}, nil, 0, 0)
+}
+
 type pend struct {
 	v verdict
 	c caseT
@@ -583,6 +730,7 @@ func run(r *mc.Run) {
 	r.Assume("files carry no chunks (content transfer needs a volume server and is not part of the mapping property); directories are implied by their files")
 	r.Assume("'came from the target cluster' is IsFromOtherCluster for filer.replicate with a sink named filer, and the target filer's signature in the event for filer.sync (filter in doSubscribeFilerMetaChanges, exercised in the sync domain)")
 	r.Assume("sync domain: the source filer is scripted (one subscription per event, every event delivered unfiltered); the target is a real Filer + FilerServer over leveldb2 reached through gRPC on loopback")
+	r.Assume("directory histories: a recursive delete is emitted as the filer emits it (children first, then the directory with IsDirectory set) and never carries the other-cluster flag; a sink may lack a directory the source has (sinks create directories lazily) but must not keep one the source does not have")
 	depth := r.Pick(3, 4)
 	r.Set("depth", depth)
 	type unit struct {
@@ -594,16 +742,26 @@ func run(r *mc.Run) {
 		{"process", "ref-filer", true}, {"process", "local", false},
 	}
 	// collect the histories once per signature mode (they are cheap to hold at these depths)
-	hist := map[bool][][]event{}
+	histsOf := map[bool][]hist{}
 	for _, wo := range []bool{false, true} {
 		d := depth
 		if wo && d > 3 {
 			d = 3 // with the other-cluster flag the alphabet doubles; depth 3 there
 		}
-		histories(d, wo, func(h []event) { hist[wo] = append(hist[wo], append([]event(nil), h...)) })
+		histories(d, wo, func(h []event) {
+			histsOf[wo] = append(histsOf[wo], hist{append([]event(nil), h...), len(h) - 1})
+		})
 	}
-	r.Set("histories_plain", len(hist[false]))
-	r.Set("histories_with_other_cluster_flag", len(hist[true]))
+	r.Set("histories_plain", len(histsOf[false]))
+	r.Set("histories_with_other_cluster_flag", len(histsOf[true]))
+	// histories with explicit directories (mkdir, recursive delete, file where a directory was)
+	nDir := 0
+	dirHistories(r.Pick(3, 4), func(h hist) {
+		nDir++
+		histsOf[false] = append(histsOf[false], h)
+		histsOf[true] = append(histsOf[true], h)
+	})
+	r.Set("histories_with_directories", nDir)
 	// work items: unit x 4 slices
 	type item struct {
 		u unit
@@ -621,28 +779,29 @@ func run(r *mc.Run) {
 		it := items[i]
 		t := flib.Tally{}
 		seen := map[string]int{}
-		hs := hist[it.u.withOther]
+		hs := histsOf[it.u.withOther]
 		scratch := filepath.Join(scratchRoot, fmt.Sprintf("w%d", i))
 		for j := it.k; j < len(hs); j += 4 {
 			sc := ""
 			if it.u.sink == "local" {
 				sc = filepath.Join(scratch, fmt.Sprintf("h%d", j))
 			}
-			// only the last event of a history is new: its prefixes are histories of their own
-			classes, v := runHistory(it.u.seam, it.u.sink, hs[j], sc)
-			if len(classes) == len(hs[j]) {
-				t.Add(classes[len(classes)-1])
+			h := hs[j]
+			// only the events of the last action are new: the prefixes are histories of their own
+			classes, v := runHistory(it.u.seam, it.u.sink, h.events, sc)
+			for x := h.lastStart; x < len(classes); x++ {
+				t.Add(classes[x])
 			}
 			if sc != "" {
 				os.RemoveAll(sc)
 			}
-			if v != nil && len(classes) == len(hs[j]) {
+			if v != nil && len(classes) > h.lastStart {
 				// keep the shortest witness of each class
 				if k, ok := seen[v.class]; !ok {
 					seen[v.class] = len(pends[i])
-					pends[i] = append(pends[i], pend{*v, caseT{it.u.seam, it.u.sink, hs[j]}})
-				} else if len(hs[j]) < len(pends[i][k].c.Events) {
-					pends[i][k] = pend{*v, caseT{it.u.seam, it.u.sink, hs[j]}}
+					pends[i] = append(pends[i], pend{*v, caseT{it.u.seam, it.u.sink, h.events}})
+				} else if len(h.events) < len(pends[i][k].c.Events) {
+					pends[i][k] = pend{*v, caseT{it.u.seam, it.u.sink, h.events}}
 				}
 			}
 		}
@@ -650,8 +809,9 @@ func run(r *mc.Run) {
 	})
 	// filer.sync end to end: scripted source, real FilerSink, real target filer (4 rigs in parallel)
 	syncDepth := r.Pick(2, 3)
-	var syncHist [][]event
-	histories(syncDepth, true, func(h []event) { syncHist = append(syncHist, append([]event(nil), h...)) })
+	var syncHist []hist
+	histories(syncDepth, true, func(h []event) { syncHist = append(syncHist, hist{append([]event(nil), h...), len(h) - 1}) })
+	dirHistories(syncDepth, func(h hist) { syncHist = append(syncHist, h) })
 	r.Set("sync_depth", syncDepth)
 	r.Set("sync_histories", len(syncHist))
 	const rigs = 4
@@ -668,16 +828,17 @@ func run(r *mc.Run) {
 		t := flib.Tally{}
 		seen := map[string]int{}
 		for j := k; j < len(syncHist); j += rigs {
-			classes, v := runSyncHistory(rig, syncHist[j])
-			if len(classes) == len(syncHist[j]) {
-				t.Add(classes[len(classes)-1])
+			h := syncHist[j]
+			classes, v := runSyncHistory(rig, h.events)
+			for x := h.lastStart; x < len(classes); x++ {
+				t.Add(classes[x])
 			}
-			if v != nil && len(classes) == len(syncHist[j]) {
-				c := caseT{"sync", "filer-sink", syncHist[j]}
+			if v != nil && len(classes) > h.lastStart {
+				c := caseT{"sync", "filer-sink", h.events}
 				if x, ok := seen[v.class]; !ok {
 					seen[v.class] = len(syncPends[k])
 					syncPends[k] = append(syncPends[k], pend{*v, c})
-				} else if len(syncHist[j]) < len(syncPends[k][x].c.Events) {
+				} else if len(h.events) < len(syncPends[k][x].c.Events) {
 					syncPends[k][x] = pend{*v, c}
 				}
 			}
